@@ -51,7 +51,13 @@ func genHistory(rt *rapid.T, o hgenOpts) history {
 				// make sure that pid never gets a login
 				p = 50 + s
 			}
-			ops = append(ops, hop{K: "open", S: s, P: p})
+			oldSes := 0
+			if rapid.IntRange(0, 3).Draw(rt, "oldses") == 0 {
+				if oldSes = rapid.IntRange(1, nS).Draw(rt, "oldsesN"); oldSes == s {
+					oldSes = 0
+				}
+			}
+			ops = append(ops, hop{K: "open", S: s, P: p, Old: oldSes})
 		case k < 72: // ev
 			if !opened[s] && !(o.Strays && rapid.IntRange(0, 4).Draw(rt, "early") == 0) {
 				continue
